@@ -9,7 +9,8 @@
     events of the lifetime: final state [st], the outcomes [os], the host calls [T].
     [fin_calls st fin] is the batch of calls of the finalisation. *)
 From TT Require Import Tunnel.ReceiverSpec Tunnel.ReceiverInv Tunnel.ReceiverHistInv
-  Tunnel.ReceiverFinalize Tunnel.ReceiverFinalizeProofs.
+  Tunnel.ReceiverFinalize Tunnel.ReceiverFinalizeProofs Tunnel.ReceiverOrder Tunnel.ReceiverOrderProofs
+  Judge.Recv Judge.RecvProofs.
 From stdpp Require Import gmap.
 
 (** ** A. Lifetime bookkeeping *)
@@ -146,6 +147,68 @@ Theorem C04_host_context_restored :
   current (stack_apply stk (all_calls (hist_run hist_init (lives_steps ls)))) = current stk.
 Proof. exact host_context_restored. Qed.
 
+(** ** B'. Every order the code may pick
+
+    [CurrentExecution::finalize] iterates a [HashMap] and a [HashSet], [new] a [HashMap]: the order
+    of the forced exits, of the closes and of the registrations is unspecified.  The model fixes
+    ascending keys; [Tunnel/ReceiverOrder.v] defines which batches the code may emit instead
+    ([fin_reorder]: a permutation of the exits followed by a permutation of the closes;
+    [obs_reorder]: a history step with its batches re-ordered that way). *)
+
+(** the finalisation of a state in any iteration order of its two containers is such a batch *)
+Theorem C04_finalize_in_any_container_order :
+  ∀ st pe pc, pe ≡ₚ map_to_list (r_entered st) → pc ≡ₚ elements (r_uncommitted st) →
+  fin_reorder (drop_calls st) (finalize_in_order st true pe pc) ∧
+  fin_reorder (snd (persist st)) (finalize_in_order st false pe pc).
+Proof. exact finalize_in_order_reorder. Qed.
+
+(** one lifetime: the stack and the current span are restored whatever order is picked *)
+Theorem C04_stack_restored_any_order :
+  ∀ steps pre evs fin, hist_scope hist_init steps → is_lifetime steps pre evs fin →
+  let h0 := hist_final hist_init pre in
+  ∀ st w os T, lrun (h_st h0) (h_w h0) evs = (st, w, os, T) →
+  ∀ stk F', wf_drop (h_st h0) (h_w h0) evs = true →
+  (∀ id h, r_local (h_st h0) !! id = Some h → h ∉ stk) → (∀ h, h ∈ stk → (h <= w_next (h_w h0))%N) →
+  fin_reorder (fin_calls st fin) F' →
+  stack_apply stk (T ++ F') = stk ∧ current (stack_apply stk (T ++ F')) = current stk.
+Proof. exact stack_restored_any_order. Qed.
+
+(** whole histories: the host thread's span context is restored for every choice of order in
+    every finalisation and every restore *)
+Theorem C04_host_context_restored_any_order :
+  ∀ (ls : list life) stk obs',
+  Forall (λ l : life, is_recv (snd l) = false) ls →
+  hist_scope hist_init (lives_steps ls) → wf_drop_lives hist_init ls = true →
+  (∀ h, h ∈ stk → (h <= w_next (h_w hist_init))%N) →
+  Forall2 obs_reorder (hist_run hist_init (lives_steps ls)) obs' →
+  stack_apply stk (all_calls obs') = stk ∧ current (stack_apply stk (all_calls obs')) = current stk.
+Proof. exact host_context_restored_any_order. Qed.
+
+(** the enter / exit balance of every host id is the same for every such choice *)
+Theorem C04_balance_any_order :
+  ∀ steps obs' h, Forall2 obs_reorder (hist_run hist_init steps) obs' →
+  bal (all_calls obs') h = bal (all_calls (hist_run hist_init steps)) h.
+Proof. exact balance_any_order. Qed.
+
+(** what the correspondence check establishes: when the judge finds the implementation's batch [b]
+    equal to the model's batch [a] ([batch_eqb]), [b] - in the order in which the implementation made
+    the calls - is such a re-ordering of [a] ... *)
+Theorem C04_judged_batch_is_reordering :
+  ∀ a b, exits_before_closes false a = true → batch_eqb a b = true → fin_reorder a b.
+Proof. exact batch_eqb_fin_reorder. Qed.
+
+(** ... so that on every history on which the implementation matched the model, the calls the
+    implementation really made, in its own order, restore the host's span context. *)
+Theorem C04_implementation_restores_context :
+  ∀ (ls : list life) stk impl,
+  Forall (λ l : life, is_recv (snd l) = false) ls →
+  hist_scope hist_init (lives_steps ls) → wf_drop_lives hist_init ls = true →
+  (∀ h, h ∈ stk → (h <= w_next (h_w hist_init))%N) →
+  corr_history (lives_steps ls) impl = true →
+  let obs' := zip_mobs (hist_run hist_init (lives_steps ls)) impl in
+  stack_apply stk (all_calls obs') = stk ∧ current (stack_apply stk (all_calls obs')) = current stk.
+Proof. exact impl_context_restored. Qed.
+
 (** ** C. Rollback and retry *)
 
 (** The outcome of an event (including the reported error) is a function of the metadata and the
@@ -214,4 +277,20 @@ Example C04_wf_drop_needed :
   ∧ all_calls (hist_run hist_init (lives_steps [l]))
     = [HRegister cs; HNewSpan 1 cs PCtx []; HEnter 1; HTryClose 1]
   ∧ bal (all_calls (hist_run hist_init (lives_steps [l]))) 1 = 1%N.
+Proof. vm_compute. repeat split; reflexivity. Qed.
+
+(** Non-vacuity of the order theorems: two spans entered and born in a lifetime that is dropped;
+    the batch "exit 2, exit 1, exit 1, close 2, close 1" is one the code may emit where the model
+    emits "exit 1, exit 1, exit 2, close 1, close 2", the judge accepts it, and it restores the stack;
+    "close 1" before "exit 1" is not accepted. *)
+Example C04_order_example :
+  let cs := mk_cs KSpan "f4"%string "t"%string LInfo None None None [] in
+  let evs := [ENewCallSite 0 cs; ENewSpan 1 None 0 []; ENewSpan 2 None 0 []; ESpanEntered 1; ESpanEntered 2; ESpanEntered 1] in
+  let st := h_st (hist_final hist_init (map SRecv evs)) in
+  let F' := [HExit 2; HExit 1; HExit 1; HTryClose 2; HTryClose 1] in
+  drop_calls st = [HExit 1; HExit 1; HExit 2; HTryClose 1; HTryClose 2]
+  ∧ finalize_in_order st true [(2, 1); (1, 2)]%N [2; 1]%N = F'
+  ∧ batch_eqb (drop_calls st) F' = true
+  ∧ batch_eqb (drop_calls st) [HExit 2; HExit 1; HTryClose 1; HExit 1; HTryClose 2] = false
+  ∧ stack_apply [0%N] (all_calls (hist_run hist_init (map SRecv evs)) ++ F') = [0%N].
 Proof. vm_compute. repeat split; reflexivity. Qed.
